@@ -162,7 +162,6 @@ CliFaithful ==
      IN CfgOfOpts(r, cfg) =>
           /\ r.exit = 0
           /\ r.stdout_utf8
-          /\ (r.output # "stdout") => r.stdout = <<>>
           /\ (r.output = "file") => r.has_outfile
           /\ (r.input = "file" /\ r.output # "same") => (r.has_infile /\ r.infile_after = me.src)
           /\ \A i \in 1..(Len(hist) - 1) :
